@@ -128,6 +128,46 @@ def gen_outside(rng):
     return d, ["outside:" + k]
 
 
+# ---------------------------------------------------------------- adaptive alias probing
+def alias_followups(d, variables, limit=3):
+    """Circuits in which a legal node carries the name of a *string* key of the IDPool that is not a node of d.
+
+    With tuple keys for the auxiliary variables (the current code) there is no such key and nothing is generated.  With any
+    string-keyed scheme the collision is constructed instead of guessed: a plain name becomes an extra input; `a.b` becomes pin `b`
+    of a blackbox instance `a` (instance names live in their own registry, so `a` may also be a gate), alternately as an unconnected
+    bb_output and as a connected bb_input.  Every follow-up is lint-clean when d is."""
+    names = {n[0] for n in d["nodes"]}
+    keys = [k for k in getattr(variables, "obj2id", {}) if isinstance(k, str) and k and k not in names]
+    out = []
+    for j, k in enumerate(keys[:limit]):
+        e = json.loads(json.dumps(d))
+        if "." not in k:
+            e["nodes"].append([k, "input", False, []])
+            out.append(e)
+            continue
+        inst, pin = k.split(".", 1)
+        if not inst or not pin:
+            continue
+        drivers = [n[0] for n in d["nodes"] if n[1] not in ("bb_input",)]
+        as_output = (j % 2 == 0) or not drivers
+        if as_output:
+            e["nodes"].append([k, "bb_output", False, []])
+        else:
+            e["nodes"].append([k, "bb_input", False, [drivers[0]]])
+        for b in e["bbs"]:
+            if b[0] == inst:
+                (b[3] if as_output else b[2]).append(pin)
+                break
+        else:
+            e["bbs"].append([inst, "aliasbb", [] if as_output else [pin], [pin] if as_output else []])
+        out.append(e)
+    return out
+
+
+def cmany(terms):
+    return terms[0] if len(terms) == 1 else "CMany " + cl("(%s)" % t for t in terms)
+
+
 # ---------------------------------------------------------------- orders and variable naming
 def record_orders(c, nodes=None):
     """list(c.fanin(n)) for every node whose clause set depends on the iteration order."""
